@@ -135,6 +135,12 @@ GEN = {
                 rule="point clouds whose intensity/colour attributes take every data type (single/double open/bounded, integer, scaled integer of widths 0..64, degenerate) x 9 limit classes (absent, complete same type, complete mixed, partial via XML line removal, equal, reversed, extreme, non-finite, complete other type) x sorted value ladders x 4 settings of the two normalisation switches; non-trivial = (type class, limit class, switch) cell in which delivered values were checked; distinct = number of such distinct cells",
                 distinct=lambda r: len([k for k in r.cover if k.startswith("cell:")]), evaluations=lambda r: r.stats.get("clouds", 0),
                 assumptions=["expected value = clamp((v-min)/(max-min)) in f64 with halved operands, tolerance 2 ulp(f32) + 2e-7", "when limits are complete but of mixed/other type either candidate range is accepted; the invariants ([0,1], no NaN, monotone) are always required", "a reader that refuses unusable limits (reversed, non-finite) when the iterator is created is not a C13 matter"]),
+    "C11": dict(workload="pages", extra=["--all"], quick=(0, 60), thorough=(0, 900), both=False,
+                quick_extra=["--depth", "4", "--random", "12000"], thorough_extra=["--depth", "5", "--random", "200000"],
+                rule="page layer driven through the e57_verif hook beside a logical-stream model: ALL histories of the given depth (quick 4, thorough 5) over a 29-symbol alphabet {write_all(n) for 12 sizes around page boundaries, raw write, physical_seek to 12 position classes incl. rejected ones, flush, align, physical_position, physical_size} followed by drop, then random histories of 20..120 ops with patch-back patterns; device compared with the model at every flush point; read-side sequences {seek_physical, read(n), read_exact(n), align} on intact images and images with one damaged page; non-trivial = history with >=1 flush point checked; distinct = distinct (abstract state, op kind, abstract state) transitions observed",
+                distinct=lambda r: len(r.nums.get("transition", ())), evaluations=lambda r: r.stats.get("histories_exhaustive", 0) + r.stats.get("histories_random", 0),
+                extra_cov=lambda r: {"states": len(r.nums.get("abs_state", ())), "transitions": len(r.nums.get("transition", ())), "flush_points_checked": r.stats.get("flush_points_checked", 0), "read_sequences": r.stats.get("read_sequences", 0) + r.stats.get("read_sequences_damaged", 0), "exhaustive_part": "all histories of the stated depth", "exhaustive": False},
+                assumptions=["abstract state = (cursor-in-page class, current page exists on device, cursor at end, page count capped at 4, cursor mod 4)", "a rejected seek is not a flush point; the model says it changes nothing and the next flush point is judged", "patterns written are never zero so that missing or misplaced bytes are visible"]),
 }
 
 
@@ -146,10 +152,11 @@ def generic(prop, tier, seed):
     try:
         cases, secs = g["quick"] if tier == "quick" else g["thorough"]
         b = build("checked")
-        res.merge(run_shards(b, g["workload"], g["extra"], cases, secs, seed, tier, wd, "checked", prop, abort_prop=g.get("abort_prop")))
+        extra = g["extra"] + (g.get("quick_extra", []) if tier == "quick" else g.get("thorough_extra", []))
+        res.merge(run_shards(b, g["workload"], extra, cases, secs, seed, tier, wd, "checked", prop, abort_prop=g.get("abort_prop")))
         if tier == "thorough" and g.get("both"):
             b2 = build("release")
-            res.merge(run_shards(b2, g["workload"], g["extra"], cases // 2, secs // 2, seed + 1000003, tier, wd, "release", prop, abort_prop=g.get("abort_prop")))
+            res.merge(run_shards(b2, g["workload"], extra, cases // 2, secs // 2, seed + 1000003, tier, wd, "release", prop, abort_prop=g.get("abort_prop")))
     finally:
         cleanup(wd)
     return finish(prop, tier, seed, level(prop), res, g["rule"], g["distinct"](res), g["evaluations"](res), g["assumptions"], t0, g.get("extra_cov", lambda r: {})(res), exhaustive=g.get("exhaustive"))
